@@ -49,7 +49,7 @@ def check_fragment(s):
         assert systemid == _xe
         assert publicid is None
         eparser = parser.ExternalEntityParserCreate(context)
-        eparser.Parse(s.encode('UTF-8'), True)
+        eparser.Parse(s.encode('UTF-8', 'surrogatepass'), True)
         return 1
     parser = xml.parsers.expat.ParserCreate('UTF-8')
     parser.ExternalEntityRefHandler = ee_handler
